@@ -189,6 +189,244 @@ fn emit_dict(out: &mut Out, ranges: &[Range], class: &str) {
     out.push(coq, js, class, ranges.len() >= 2);
 }
 
+// ---------------------------------------------------------------------------------------------
+// seq channel: ONE PageLabelTree driven as a state machine
+#[derive(Clone, Debug)]
+enum SOp {
+    Add(Range),
+    Get(u32),
+    All(u32),
+    Dict,
+}
+fn sop_json(o: &SOp) -> Value {
+    match o {
+        SOp::Add(r) => json!({"op": "add", "range": r.json()}),
+        SOp::Get(p) => json!({"op": "get", "page": p}),
+        SOp::All(n) => json!({"op": "all", "n": n}),
+        SOp::Dict => json!({"op": "dict"}),
+    }
+}
+fn sop_from(v: &Value) -> SOp {
+    match v["op"].as_str().unwrap_or("get") {
+        "add" => SOp::Add(Range::from(&v["range"])),
+        "all" => SOp::All(v["n"].as_u64().unwrap_or(0) as u32),
+        "dict" => SOp::Dict,
+        _ => SOp::Get(v["page"].as_u64().unwrap_or(0) as u32),
+    }
+}
+fn sop_coq(o: &SOp) -> String {
+    match o {
+        SOp::Add(r) => {
+            let c = r.coq(); // "(page, {| .. |})"
+            let inner = &c[1..c.len() - 1];
+            let (k, l) = inner.split_once(", ").unwrap();
+            format!("SAdd {} ({})", k, l)
+        }
+        SOp::Get(p) => format!("SGet {p}"),
+        SOp::All(n) => format!("SAll {n}"),
+        SOp::Dict => "SDict".into(),
+    }
+}
+
+/// /Nums of a dictionary as the Coq list (Z * ldict), or Err(why)
+fn nums_coq(d: &oxidize_pdf::objects::Dictionary) -> Result<String, String> {
+    let nums = match d.get("Nums") {
+        Some(Object::Array(a)) => a.clone(),
+        _ => return Err("no /Nums array".into()),
+    };
+    if nums.len() % 2 != 0 {
+        return Err("odd /Nums length".into());
+    }
+    let mut items = vec![];
+    for pair in nums.chunks(2) {
+        let k = match &pair[0] {
+            Object::Integer(i) => *i,
+            _ => return Err("key is not an integer".into()),
+        };
+        let ld = match &pair[1] {
+            Object::Dictionary(x) => x,
+            _ => return Err("value is not a dictionary".into()),
+        };
+        for (key, _) in ld.entries() {
+            if !["Type", "S", "P", "St"].contains(&key.as_str()) {
+                return Err("unknown key in label dictionary".into());
+            }
+        }
+        match ld.get("Type") {
+            None => {}
+            Some(Object::Name(n)) if n == "PageLabel" => {}
+            _ => return Err("/Type is not /PageLabel".into()),
+        }
+        let s = match ld.get("S") {
+            None => None,
+            Some(Object::Name(n)) => Some(coq_bytes(n.as_bytes())),
+            _ => return Err("/S is not a name".into()),
+        };
+        let p = match ld.get("P") {
+            None => None,
+            Some(Object::String(x)) => Some(coq_bytes(x.as_bytes())),
+            Some(Object::ByteString(x)) => Some(coq_bytes(x)),
+            _ => return Err("/P is not a string".into()),
+        };
+        let st = match ld.get("St") {
+            None => None,
+            Some(Object::Integer(i)) => Some(coq_z(*i as i128)),
+            _ => return Err("/St is not an integer".into()),
+        };
+        items.push(format!("({}, {{| d_S := {}; d_P := {}; d_St := {} |}})", coq_z(k as i128), coq_opt(s), coq_opt(p), coq_opt(st)));
+    }
+    Ok(coq_list(items))
+}
+
+fn emit_seq(out: &mut Out, ops: &[SOp], class: &str) {
+    let js = json!({"kind": "seq", "ops": ops.iter().map(sop_json).collect::<Vec<_>>()});
+    let ops2 = ops.to_vec();
+    let res = catch(std::panic::AssertUnwindSafe(move || {
+        let mut t = PageLabelTree::new();
+        let mut outs: Vec<Result<String, String>> = vec![];
+        for o in &ops2 {
+            match o {
+                SOp::Add(r) => t.add_range(r.page, r.label()),
+                SOp::Get(p) => outs.push(Ok(match t.get_label(*p) {
+                    Some(s) => format!("SOLabel (RLabel {})", coq_bytes(s.as_bytes())),
+                    None => "SOLabel RNone".to_string(),
+                })),
+                SOp::All(n) => outs.push(Ok(format!(
+                    "SOAll {}",
+                    coq_list(t.get_all_labels(*n).iter().map(|s| coq_bytes(s.as_bytes())))
+                ))),
+                SOp::Dict => outs.push(nums_coq(&t.to_dict()).map(|s| format!("SODict {s}"))),
+            }
+        }
+        outs
+    }));
+    let outs = match res {
+        Ok(o) => o,
+        Err(m) => {
+            out.impl_failures.push(json!({"what": format!("panic in an operation sequence: {m}"), "msg": m, "case": js}));
+            return;
+        }
+    };
+    let mut coq_outs = vec![];
+    for o in outs {
+        match o {
+            Ok(s) => coq_outs.push(s),
+            Err(why) => {
+                out.impl_failures.push(json!({"what": format!("to_dict output is not a /Nums number tree leaf: {why}"), "case": js}));
+                return;
+            }
+        }
+    }
+    let coq = format!("({}, {})", coq_list(ops.iter().map(sop_coq)), coq_list(coq_outs));
+    // non-trivial: a lookup follows an add_range that follows a lookup (the state is exercised)
+    let mut stage = 0;
+    for o in ops {
+        stage = match (stage, o) {
+            (0, SOp::Add(_)) => 1,
+            (1, SOp::Get(_)) | (1, SOp::All(_)) => 2,
+            (2, SOp::Add(_)) => 3,
+            (3, SOp::Get(_)) | (3, SOp::All(_)) => 4,
+            (s, _) => s,
+        };
+    }
+    out.push(coq, js, class, stage == 4);
+}
+
+fn enumerate_seq(len: usize, alphabet: &[SOp], cur: &mut Vec<SOp>, f: &mut dyn FnMut(&[SOp])) {
+    if cur.len() == len {
+        f(cur);
+        return;
+    }
+    for o in alphabet {
+        cur.push(o.clone());
+        enumerate_seq(len, alphabet, cur, f);
+        cur.pop();
+    }
+}
+
+fn small_range(r: &mut Rng, page: u32) -> Range {
+    let style = STYLES[r.below(6) as usize].to_string();
+    let prefix = match r.below(3) {
+        0 => None,
+        _ => Some(PREFIXES[r.below(PREFIXES.len() as u64) as usize].to_string()),
+    };
+    let start = match r.below(6) {
+        0 => r.range(2, 20) as u32,
+        1 => 0,
+        _ => 1,
+    };
+    Range { page, style, prefix, start }
+}
+
+/// starts of the ranges currently in the tree (as the harness knows them), sorted
+fn starts_of(ops: &[SOp]) -> Vec<u32> {
+    let mut v: Vec<u32> = ops.iter().filter_map(|o| if let SOp::Add(r) = o { Some(r.page) } else { None }).collect();
+    v.sort();
+    v.dedup();
+    v
+}
+
+fn random_seq(r: &mut Rng, len: usize) -> Vec<SOp> {
+    let mut ops: Vec<SOp> = vec![];
+    let mut last_get: Option<u32> = None;
+    for _ in 0..len {
+        let starts = starts_of(&ops);
+        let near = |r: &mut Rng| -> u32 {
+            if starts.is_empty() {
+                return r.range(0, 12) as u32;
+            }
+            let s = *r.pick(&starts);
+            match r.below(6) {
+                0 => s,
+                1 => s.saturating_sub(1), // the LAST page of the neighbouring range below
+                2 => s.saturating_add(1),
+                3 => s.saturating_add(r.range(2, 6) as u32),
+                4 => r.range(0, 40) as u32,
+                _ => s.saturating_sub(r.range(2, 4) as u32),
+            }
+        };
+        let o = match r.below(100) {
+            0..=34 => {
+                // add: near an existing boundary, or right at/around the page looked up last
+                let page = match (last_get, r.below(3)) {
+                    (Some(p), 0) => p,
+                    (Some(p), 1) => {
+                        // the last page of the range that answered the previous lookup
+                        starts.iter().find(|&&s| s > p).map_or(p.saturating_add(1), |&s| s - 1)
+                    }
+                    _ => near(r),
+                };
+                SOp::Add(small_range(r, page))
+            }
+            35..=84 => {
+                let p = match (last_get, r.below(4)) {
+                    (Some(p), 0) => p,
+                    (Some(p), 1) => p.saturating_add(1),
+                    _ => near(r),
+                };
+                last_get = Some(p);
+                SOp::Get(p)
+            }
+            85..=91 => SOp::All(r.range(0, 24) as u32),
+            _ => SOp::Dict,
+        };
+        if let SOp::Add(_) = &o {
+            // the page of the add becomes the most likely next lookup
+            if let SOp::Add(rg) = &o {
+                if r.chance(2, 3) {
+                    ops.push(o.clone());
+                    let p = rg.page;
+                    last_get = Some(p);
+                    ops.push(SOp::Get(p));
+                    continue;
+                }
+            }
+        }
+        ops.push(o);
+    }
+    ops
+}
+
 const PREFIXES: [&str; 7] = ["", "A-", "Chapter ", "p. ", "Anexo é ", "§", "x"];
 
 fn random_range(r: &mut Rng, page: u32) -> Range {
@@ -231,11 +469,17 @@ pub fn run(ctx: &Ctx) {
     fmt.shard_size = 5000;
     let mut dict = Out::new(ctx, header, "list (N * label) * list (Z * ldict)", "dict_code");
     dict.shard_size = 1500;
+    let mut sq = Out::new(ctx, header, "list sop * list sout", "seq_code");
+    sq.shard_size = 1500;
 
     if let Some(cases) = ctx.replay_cases() {
         for c in cases {
             let ranges: Vec<Range> = c["ranges"].as_array().map(|a| a.iter().map(Range::from).collect()).unwrap_or_default();
             match c["kind"].as_str().unwrap_or("label") {
+                "seq" => {
+                    let ops: Vec<SOp> = c["ops"].as_array().map(|a| a.iter().map(sop_from).collect()).unwrap_or_default();
+                    emit_seq(&mut sq, &ops, "replay")
+                }
                 "fmt" => emit_fmt(&mut fmt, c["style"].as_str().unwrap_or("D"), c["number"].as_u64().unwrap_or(0) as u32, "replay"),
                 "dict" => emit_dict(&mut dict, &ranges, "replay"),
                 _ => emit_label(&mut lab, &ranges, c["page"].as_u64().unwrap_or(0) as u32, "replay"),
@@ -309,6 +553,67 @@ pub fn run(ctx: &Ctx) {
             }
             emit_dict(&mut dict, &ranges, &format!("dict_{}ranges", ranges.len().min(6)));
         }
+        // ---- dict: neighbouring ranges with IDENTICAL style/prefix/start (a writer must not merge them
+        //      unless no label changes), and style None repeats (where merging changes nothing)
+        for i in 0..(if ctx.thorough() { 400 } else { 80 }) {
+            let base = random_range(&mut r, 0);
+            let mut ranges = vec![];
+            let mut page = if i % 3 == 0 { 0 } else { r.range(0, 5) as u32 };
+            let n = r.range(2, 4);
+            for j in 0..n {
+                let mut rg = if j > 0 && r.chance(1, 4) { random_range(&mut r, page) } else { base.clone() };
+                rg.page = page;
+                ranges.push(rg);
+                page += r.range(1, 6) as u32;
+            }
+            emit_dict(&mut dict, &ranges, "dict_repeated_definition");
+            let mut ops: Vec<SOp> = ranges.iter().cloned().map(SOp::Add).collect();
+            ops.push(SOp::Dict);
+            ops.push(SOp::All(page + 2));
+            emit_seq(&mut sq, &ops, "seq_repeated_definition");
+        }
+
+        // ---- seq: small-scope exhaustive interleavings after two preludes, then random sequences
+        let mk = |page: u32, style: &str, prefix: Option<&str>| Range { page, style: style.into(), prefix: prefix.map(|s| s.to_string()), start: 1 };
+        let alphabet: Vec<SOp> = vec![
+            SOp::Add(mk(0, "r", None)),
+            SOp::Add(mk(4, "D", None)),
+            SOp::Add(mk(9, "A", Some("App-"))),
+            SOp::Add(mk(10, "D", None)),
+            SOp::Add(mk(9, "D", None)),
+            SOp::Add(mk(10, "a", Some("x"))),
+            SOp::Get(0),
+            SOp::Get(4),
+            SOp::Get(8),
+            SOp::Get(9),
+            SOp::Get(10),
+            SOp::Get(11),
+            SOp::Dict,
+        ];
+        let preludes: Vec<Vec<SOp>> = vec![vec![], vec![SOp::Add(mk(0, "r", None)), SOp::Add(mk(10, "D", None))], vec![SOp::Add(mk(4, "R", Some("p.")))]];
+        let maxlen = if ctx.thorough() { 4 } else { 3 };
+        for pre in &preludes {
+            for len in 1..=maxlen {
+                let mut cur = vec![];
+                enumerate_seq(len, &alphabet, &mut cur, &mut |ops| {
+                    let mut all = pre.clone();
+                    all.extend_from_slice(ops);
+                    // only histories that end in an observation say something new
+                    if !matches!(all.last(), Some(SOp::Add(_))) {
+                        emit_seq(&mut sq, &all, &format!("seq_exhaustive_len{len}"));
+                    }
+                });
+            }
+        }
+        sq.extra.insert("exhaustive_alphabet".into(), json!(alphabet.len()));
+        sq.extra.insert("exhaustive_upto_len".into(), json!(maxlen));
+        let nseq = if ctx.thorough() { 3000 } else { 600 };
+        for i in 0..nseq {
+            let len = if i % 8 == 0 { r.range(25, 60) } else { r.range(4, 20) } as usize;
+            let ops = random_seq(&mut r, len);
+            emit_seq(&mut sq, &ops, "seq_random");
+        }
+
         // the documented overflow witness, always
         let w = vec![Range { page: 0, style: "D".into(), prefix: None, start: u32::MAX }];
         for p in [0u32, 1, 2, u32::MAX] {
@@ -318,4 +623,5 @@ pub fn run(ctx: &Ctx) {
     lab.finish("label");
     fmt.finish("fmt");
     dict.finish("dict");
+    sq.finish("seq");
 }
